@@ -51,8 +51,16 @@ fn giant_elements<const N: usize>(c: &mut Ctx) {
     use hashbrown::TryReserveError;
     type G<const N: usize> = [u8; N];
     let bh = PlanBH::new(crate::plan::Plan::Mixed, 1);
-    let unrepresentable = (N as u128) * 4 > isize::MAX as u128;
     for additional in [1usize, 2, 3, 4, 7, 8, 14, 15, 28, 1000] {
+        // is this request representable at all? (bucket count from the real function, byte size in 128-bit arithmetic)
+        let w = hashbrown::verif::GROUP_WIDTH as u128;
+        let unrepresentable = match hashbrown::verif::capacity_to_buckets(additional, N, 1) {
+            None => true,
+            Some(b) => {
+                let data = (N as u128 * b as u128 + w - 1) / w * w;
+                data + b as u128 + w > isize::MAX as u128 - (w - 1)
+            }
+        };
         for which in 0..3 {
             c.evaluations += 1;
             c.sig_parts(&[950, N as u64, additional as u64, which]);
@@ -128,9 +136,14 @@ pub fn run(c: &mut Ctx) {
             c.describe(d);
             giant_elements::<{ (1 << 61) - 1 }>(c);
             giant_elements::<{ (1 << 61) - 2 }>(c);
+            giant_elements::<{ (1 << 61) - 8 }>(c);
+            giant_elements::<{ (1 << 61) - 9 }>(c);
+            giant_elements::<{ (1 << 61) - 11 }>(c);
             giant_elements::<{ (1 << 61) - 16 }>(c);
             giant_elements::<{ (1 << 60) + 1 }>(c);
             giant_elements::<{ (1 << 60) - 1 }>(c);
+            giant_elements::<{ (1 << 60) - 4 }>(c);
+            giant_elements::<{ (1 << 60) - 5 }>(c);
             return;
         }
         let name = C12_COLLS[(crate::util::mix(idx) % C12_COLLS.len() as u64) as usize];
